@@ -14,9 +14,9 @@ LEVEL = "model_checking"
 
 def case_list(tier, seed):
     if tier == "quick":
-        named, ks, npres = le.corpus_defs() + le.f_defs(5) + le.sampled_defs(200, seed, 6, 14, 400), (1, 2), 2
+        named, ks, npres = le.corpus_defs() + le.f_defs(5) + le.triple_defs() + le.sampled_defs(200, seed, 6, 14, 400), (1, 2), 2
     else:
-        named, ks, npres = le.corpus_defs() + le.f_defs(6) + le.sampled_defs(1200, seed, 7, 18, 500), (1, 2, 3), 3
+        named, ks, npres = le.corpus_defs() + le.f_defs(6) + le.triple_defs() + le.sampled_defs(1200, seed, 7, 18, 500), (1, 2, 3), 3
     seen, out = set(), []
     for n, d in named:
         if n not in seen:
@@ -98,7 +98,8 @@ def run(chk, tier, seed):
            "traces_validated_against_impl": ntr,
            "evaluations": len(lr.records), "distinct_nontrivial": lr.nontrivial(),
            "rule": "definitions: corpus(63) + every member of F up to the tier's event bound (exhaustive, canonical up to "
-                   "branch order/naming) + seeded samples of F; job sets Jobs_k(D) generated by TLC; one evaluation = "
+                   "branch order/naming) + 552 systematic depth-3 members of F (every triple of nested constructs, "
+                   "fragment.nesting_triples) + seeded samples of F; job sets Jobs_k(D) generated by TLC; one evaluation = "
                    "one learner run on one presentation; non-trivial = definition with >=1 fork/loop and >=2 jobs",
            "definitions": len(named), "loop_bounds": list(ks), "presentations": npres,
            "learner_runs_on_proper_subsets_of_job_sets": sum(1 for r in lr.records if r.get("sub") is not None),
